@@ -4,7 +4,8 @@ use alloc::sync::Arc;
 use alloc::vec::Vec;
 
 use super::support_rtps as s;
-use crate::rtps_messages::overall_structure::{RtpsMessageRead, RtpsSubmessageReadKind};
+use crate::rtps_messages::submessages::info_destination::InfoDestinationSubmessage;
+use crate::rtps_messages::types::{ACKNACK, DATA, GAP, HEARTBEAT, INFO_DST, INFO_TS};
 use crate::rtps_messages::submessage_elements::{Data, Parameter, ParameterList, SequenceNumberSet};
 use crate::rtps_messages::submessages::ack_nack::AckNackSubmessage;
 use crate::rtps_messages::submessages::data::DataSubmessage;
@@ -13,34 +14,42 @@ use crate::rtps_messages::submessages::heartbeat::HeartbeatSubmessage;
 use crate::transport::types::{ChangeKind, DurabilityKind, Guid, ReliabilityKind};
 
 /// Representation invariant of a writer proxy (reader side), re-established by every step:
-/// first_available >= 1 (RTPS: HEARTBEAT.firstSN > 0), highest_received >= 0, and no sequence
-/// number within 16 of i64::MAX (no wrap after 2^63 samples).
-const SN_TOP: i64 = i64::MAX - 16;
+/// first_available >= 1 (RTPS: HEARTBEAT.firstSN > 0), highest_received >= 0, last_available >= 0.
 fn inv(first: i64, last: i64, highest: i64) -> bool {
-    first >= 1 && first <= SN_TOP && highest >= 0 && highest <= SN_TOP && last >= 0 && last <= SN_TOP
+    first >= 1 && highest >= 0 && last >= 0
+}
+/// Environment assumption (not inductive): fewer than 2^63-16 samples, i.e. no sequence number
+/// within 16 of i64::MAX (the code computes sn+1 / first-1 with plain arithmetic).
+const SN_TOP: i64 = i64::MAX - 16;
+fn below_top(first: i64, last: i64, highest: i64) -> bool {
+    first <= SN_TOP && highest <= SN_TOP && last <= SN_TOP
 }
 
 // @check props=C01 tier=quick
-// @desc Reliable reader safety step: from every writer-proxy state (first_available, last_available, highest_received) and for EVERY incoming DATA sequence number (full i64), a change is appended iff the DATA comes from the matched writer and sn == available_changes_max+1; then available_changes_max grows by exactly 1 and the appended change carries the submessage's sn, writer guid, key hash and payload bytes; otherwise nothing changes. By induction over deliveries (any loss/duplication/reorder pattern) the accepted sequence is exactly-once, in order, intact.
-// @bounds proxy state and sn over full i64 under the invariant; payload length 0..=4 symbolic bytes; optional 16-byte key hash; unwind 18 (key-hash copy loops)
-// @assume writer-proxy representation invariant: first_available >= 1, highest_received >= 0, all sequence numbers <= i64::MAX-16 (re-asserted after the step)
+// @desc Reliable reader safety step: from every writer-proxy state (first_available, last_available, highest_received) and for EVERY incoming DATA sequence number (full i64), a change is appended iff the DATA comes from the matched writer and sn == available_changes_max+1; then available_changes_max grows by exactly 1 and the appended change carries the submessage's sn, writer guid, kind, key hash and payload bytes; otherwise nothing changes. By induction over deliveries (any loss/duplication/reorder pattern) the accepted sequence is exactly-once, in order, intact.
+// @bounds proxy state and sn over full i64 under the invariant; payload length 0..=3 symbolic bytes; optional 16-byte key hash; unwind 3 (memcmp 17)
+// @assume writer-proxy representation invariant: first_available >= 1, highest_received >= 0, last_available >= 0 (re-asserted after the step)
+// @assume environment: no sequence number within 16 of i64::MAX (fewer than 2^63 samples per writer)
 // @enc rtps::stateful_reader::RtpsStatefulReader::on_data_submessage
 // @enc rtps::writer_proxy::RtpsWriterProxy::available_changes_max
 // @enc rtps::writer_proxy::RtpsWriterProxy::received_change_set
 // @enc rtps::cache_change::CacheChange::try_from_data_submessage
 #[kani::proof]
-#[kani::unwind(18)]
+#[kani::unwind(3)]
 fn c01_reader_data_step() {
     let mut r = s::new_reader(ReliabilityKind::Reliable);
     let first: i64 = kani::any();
     let last: i64 = kani::any();
     let highest: i64 = kani::any();
-    kani::assume(inv(first, last, highest));
+    kani::assume(inv(first, last, highest) && below_top(first, last, highest));
     s::set_proxy_state(&mut r, first, last, highest);
     let old_max = s::proxy(&mut r).available_changes_max();
 
     let sn: i64 = kani::any();
-    let (payload, bytes, len) = s::any_payload::<4>();
+    let bytes: [u8; 3] = kani::any();
+    let len: usize = kani::any();
+    kani::assume(len <= 3);
+    let payload = s::payload3(&bytes, len);
     let from_matched_writer: bool = kani::any();
     let has_key: bool = kani::any();
     let key: [u8; 16] = kani::any();
@@ -64,20 +73,16 @@ fn c01_reader_data_step() {
         assert!(c.writer_guid == s::W_GUID, "C01: accepted change is attributed to the sending writer");
         assert!(c.kind == ChangeKind::Alive, "C01: accepted change keeps its kind");
         assert!(c.data_value.len() == len, "C01: payload length intact");
-        let mut i = 0;
-        while i < 4 {
-            if i < len {
-                assert!(c.data_value[i] == bytes[i], "C01: payload bytes intact");
-            }
-            i += 1;
-        }
+        assert!(len < 1 || c.data_value[0] == bytes[0], "C01: payload byte 0 intact");
+        assert!(len < 2 || c.data_value[1] == bytes[1], "C01: payload byte 1 intact");
+        assert!(len < 3 || c.data_value[2] == bytes[2], "C01: payload byte 2 intact");
         assert!(c.instance_handle == if has_key { Some(key) } else { None }, "C01: key hash intact");
     } else {
         assert!(n == 0, "C01: a DATA that is not the next expected one is not accepted (no duplicate, no reordering)");
         assert!(new_max == old_max, "C01: rejected DATA does not move available_changes_max");
     }
     assert!(inv(first, last, core::cmp::max(highest, new_max)), "C01: invariant re-established");
-    kani::cover!(n == 1 && len == 4 && has_key, "a change with 4 payload bytes and key hash is accepted");
+    kani::cover!(n == 1 && len == 3 && has_key, "a change with 3 payload bytes and key hash is accepted");
     kani::cover!(n == 0 && from_matched_writer && sn <= old_max, "duplicate / old DATA rejected");
     kani::cover!(n == 0 && from_matched_writer && sn > old_max + 1, "out-of-order (future) DATA rejected");
     kani::cover!(n == 1 && first - 1 > highest, "acceptance right after a lost-changes jump");
@@ -99,30 +104,32 @@ fn set_elems(set: &SequenceNumberSet) -> (usize, [i64; 6]) {
 }
 
 // @check props=C01 tier=quick
-// @desc Reader request step: after a fresh HEARTBEAT(first,last,count) that obliges an answer (not final, or final without liveliness flag and something missing) the reader emits exactly one datagram INFO_DST(writer prefix)+ACKNACK (parsed back with the real parser) whose bitmap base is available_changes_max+1 and whose set is exactly the missing sequence numbers max(first,highest+1)..=last; the ACKNACK count increases; a stale HEARTBEAT (count not greater) changes nothing and emits nothing. Confirms that the `!count()==0` disjunct in RtpsWriterProxy::write_message is dead (bitwise NOT): ACKNACKs depend on must_send_acknacks alone, which the HEARTBEAT glue sets as RTPS 8.4.12.2 requires.
-// @bounds proxy state symbolic under the invariant with sequence numbers <= 1000; at most 4 missing sequence numbers after the HEARTBEAT; no buffered fragments; unwind 12
+// @desc Reader request step: after a fresh HEARTBEAT(first,last,count) that obliges an answer (not final, or final without liveliness flag and something missing) the reader's writer proxy emits exactly one datagram INFO_DST(writer prefix)+ACKNACK (decoded with the real per-submessage decoders) whose bitmap base is available_changes_max+1 and whose set is exactly the missing sequence numbers max(first,highest+1)..=last; the ACKNACK count increases; a stale HEARTBEAT (count not greater) changes nothing and emits nothing. Confirms that the `!count()==0` disjunct in RtpsWriterProxy::write_message is dead (bitwise NOT on usize): ACKNACKs depend on must_send_acknacks alone, which the HEARTBEAT glue sets as RTPS 8.4.12.2 requires - no violation of C01 follows from it.
+// @bounds proxy state symbolic under the invariant with sequence numbers <= 1000; at most 4 missing sequence numbers after the HEARTBEAT; no buffered fragments (fragment cases: c01_progress_*, c05_nackfrag_*); unwind 6 (memcmp 17, Vec<u8>::extend_with 17)
 // @assume writer-proxy representation invariant; HEARTBEAT validity (RTPS 8.3.7.5): firstSN >= 1, lastSN >= firstSN-1
-// @assume the per-reader statements of handle_heartbeat_submessage are replicated by support_rtps::glue_heartbeat (source guard)
+// @assume the statements handle_heartbeat_submessage executes on the looked-up writer proxy are replicated by support_rtps::glue_heartbeat_proxy (source guard in vlib/ptab/rtps_proto.py); the lookup itself is exercised by c01_reader_data_step / c01_progress_round
 // @enc rtps::writer_proxy::RtpsWriterProxy::write_message
 // @enc rtps::writer_proxy::RtpsWriterProxy::missing_changes
 // @enc rtps::writer_proxy::RtpsWriterProxy::missing_changes_update
 // @enc rtps::writer_proxy::RtpsWriterProxy::lost_changes_update
-// @enc rtps_messages::overall_structure::RtpsMessageRead::try_from
+// @enc rtps_messages::submessages::ack_nack::AckNackSubmessage::try_from_bytes
 #[kani::proof]
-#[kani::unwind(12)]
+#[kani::unwind(6)]
 fn c01_reader_heartbeat_acknack() {
-    let mut r = s::new_reader(ReliabilityKind::Reliable);
+    let mut wp = s::new_proxy(ReliabilityKind::Reliable);
     let first0: i64 = kani::any();
     let last0: i64 = kani::any();
     let highest: i64 = kani::any();
     kani::assume(inv(first0, last0, highest) && first0 <= 1000 && last0 <= 1000 && highest <= 1000);
-    s::set_proxy_state(&mut r, first0, last0, highest);
+    wp.lost_changes_update(first0);
+    wp.missing_changes_update(last0);
+    wp.irrelevant_change_set(highest);
     let old_hb_count: i32 = kani::any();
-    s::proxy(&mut r).set_last_received_heartbeat_count(old_hb_count);
+    wp.set_last_received_heartbeat_count(old_hb_count);
     if kani::any() {
-        s::proxy(&mut r).increment_acknack_count();
+        wp.increment_acknack_count();
     }
-    let old_an_count = s::proxy(&mut r).acknack_count();
+    let old_an_count = wp.acknack_count();
 
     let first: i64 = kani::any();
     let last: i64 = kani::any();
@@ -134,7 +141,7 @@ fn c01_reader_heartbeat_acknack() {
     kani::assume(last - first_missing < 4);
     let hb = HeartbeatSubmessage::new(final_flag, liveliness_flag, s::R_ID, s::W_ID, first, last, count);
     let out = s::Capture::new();
-    let accepted = s::glue_heartbeat(&mut r, &hb, s::W_PREFIX, &out);
+    let accepted = s::glue_heartbeat_proxy(&mut wp, &s::R_GUID, &hb, &out);
 
     assert!(accepted == (count > old_hb_count), "C01: HEARTBEAT accepted iff its count is fresh");
     let msgs = out.take();
@@ -142,38 +149,36 @@ fn c01_reader_heartbeat_acknack() {
     let must_answer = accepted && (!final_flag || (!liveliness_flag && n_missing > 0));
     if !accepted {
         assert!(msgs.len() == 0, "C01: stale HEARTBEAT is ignored");
-        assert!(s::proxy(&mut r).available_changes_max() == core::cmp::max(first0 - 1, highest), "C01: stale HEARTBEAT changes nothing");
+        assert!(wp.available_changes_max() == core::cmp::max(first0 - 1, highest), "C01: stale HEARTBEAT changes nothing");
     } else {
-        let max = s::proxy(&mut r).available_changes_max();
+        let max = wp.available_changes_max();
         assert!(max == first_missing - 1, "C01: after the HEARTBEAT everything below max(first,highest+1) is received or lost");
         if must_answer {
             assert!(msgs.len() == 1, "C01: exactly one ACKNACK datagram answers the HEARTBEAT");
-            let m = RtpsMessageRead::try_from(&msgs[0][..]).unwrap();
-            assert!(m.header().guid_prefix() == s::R_PREFIX, "C01: ACKNACK datagram carries the reader's prefix");
-            let subs = m.submessages();
-            assert!(subs.len() == 2, "C01: INFO_DST + ACKNACK");
-            match (&subs[0], &subs[1]) {
-                (RtpsSubmessageReadKind::InfoDestination(d), RtpsSubmessageReadKind::AckNack(a)) => {
-                    assert!(d.guid_prefix() == s::W_PREFIX, "C01: ACKNACK addressed to the writer's participant");
-                    assert!(*a.reader_id() == s::R_ID && *a.writer_id() == s::W_ID, "C01: ACKNACK names reader and writer");
-                    assert!(a.reader_sn_state().base() == max + 1, "C01: ACKNACK base = available_changes_max + 1");
-                    assert!(a.count() == old_an_count.wrapping_add(1), "C01: ACKNACK count increases");
-                    let (n, e) = set_elems(a.reader_sn_state());
-                    assert!(n == n_missing, "C01: ACKNACK names exactly the missing sequence numbers (cardinality)");
-                    let mut i = 0;
-                    while i < 4 {
-                        if i < n {
-                            assert!(e[i] == first_missing + i as i64, "C01: ACKNACK names exactly the missing sequence numbers");
-                        }
-                        i += 1;
-                    }
-                }
-                _ => panic!("C01: unexpected submessage kinds in the ACKNACK datagram"),
-            }
+            let m = &msgs[0][..];
+            assert!(m.len() > s::RTPS_HEADER_LEN && m[0] == b'R' && m[1] == b'T' && m[2] == b'P' && m[3] == b'S', "C01: RTPS datagram");
+            assert!(m[8] == s::R_PREFIX[0] && m[19] == s::R_PREFIX[11], "C01: ACKNACK datagram carries the reader's prefix");
+            let mut rest = &m[s::RTPS_HEADER_LEN..];
+            let (h0, b0) = s::next_sub(&mut rest).unwrap();
+            assert!(h0.submessage_id() == INFO_DST, "C01: first submessage is INFO_DST");
+            let d = InfoDestinationSubmessage::try_from_bytes(&h0, b0).unwrap();
+            assert!(d.guid_prefix() == s::W_PREFIX, "C01: ACKNACK addressed to the writer's participant");
+            let (h1, b1) = s::next_sub(&mut rest).unwrap();
+            assert!(h1.submessage_id() == ACKNACK, "C01: second submessage is ACKNACK");
+            assert!(rest.len() == 0, "C01: INFO_DST + ACKNACK and nothing else");
+            let a = AckNackSubmessage::try_from_bytes(&h1, b1).unwrap();
+            assert!(*a.reader_id() == s::R_ID && *a.writer_id() == s::W_ID, "C01: ACKNACK names reader and writer");
+            assert!(a.reader_sn_state().base() == max + 1, "C01: ACKNACK base = available_changes_max + 1");
+            assert!(a.count() == old_an_count.wrapping_add(1), "C01: ACKNACK count increases");
+            let (n, e) = set_elems(a.reader_sn_state());
+            assert!(n == n_missing, "C01: ACKNACK names exactly the missing sequence numbers (cardinality)");
+            assert!(n < 1 || e[0] == first_missing, "C01: ACKNACK names exactly the missing sequence numbers (1st)");
+            assert!(n < 2 || e[1] == first_missing + 1, "C01: ACKNACK names exactly the missing sequence numbers (2nd)");
+            assert!(n < 3 || e[2] == first_missing + 2, "C01: ACKNACK names exactly the missing sequence numbers (3rd)");
+            assert!(n < 4 || e[3] == first_missing + 3, "C01: ACKNACK names exactly the missing sequence numbers (4th)");
             kani::cover!(n_missing == 4, "ACKNACK requesting 4 missing changes");
             kani::cover!(n_missing == 0, "pure acknowledgement (nothing missing)");
             kani::cover!(first - 1 > highest && n_missing > 0, "request after changes were declared lost");
-            core::mem::forget(m);
         } else {
             assert!(msgs.len() == 0, "C01: no ACKNACK where RTPS does not require one");
             kani::cover!(final_flag && liveliness_flag && n_missing > 0, "final+liveliness HEARTBEAT with missing changes: the dead `!count()==0` disjunct would have answered");
@@ -181,5 +186,5 @@ fn c01_reader_heartbeat_acknack() {
     }
     kani::cover!(!accepted, "stale HEARTBEAT");
     core::mem::forget(msgs);
-    core::mem::forget(r);
+    core::mem::forget(wp);
 }
